@@ -86,12 +86,24 @@ func VH_C14_RecvDeadline() {
 	var got []byte
 	var err error
 	tries := 0
+	clearAfter := vIntRange("deadline_cleared_after_timeouts", 0, 2)
 	for tries = 0; tries < 16; tries++ {
 		got, err = b.Recv()
 		if err == nil {
 			break
 		}
 		vAssert(err == errRecvTimeout, "Recv failed with something else than a timeout")
+		// the application may change or clear its deadline while the
+		// message is half received (SetReadDeadline(time.Time{}) after a
+		// handshake does exactly that): the chunks consumed so far still
+		// belong to the message
+		if clearAfter > 0 && tries+1 == clearAfter {
+			if vBool("clear_to_default") {
+				b.SetRecvTimeout(DefaultRecvTimeout)
+			} else {
+				b.SetRecvTimeout(time.Hour)
+			}
+		}
 	}
 	vReach("deadline")
 	vAssert(err == nil, "Recv never succeeded")
